@@ -1,6 +1,8 @@
 package scen
 
 import (
+	"verifharness/chain"
+
 	"github.com/pegnet/pegnetd/fat/fat2"
 )
 
@@ -47,8 +49,14 @@ func buildCorners(seed int64) (*Scenario, error) {
 	b.TxE(109, -1, "carol converts what she does not have yet", carol, Conv(C, USD, 100*fct, EUR))
 	rateSPR(110)
 	b.TxE(111, 111, "carol is funded after the rejection", alice, Xfer(A, USD, 150*fct, C))
-	rateSPR(112)
-	rateSPR(113)
+	// a staking record whose staker id is an address that HAS a row in pn_addresses but holds no PEG
+	// (it only ever received pFCT): it is not a top PEG holder and must not be graded, although fewer
+	// than 100 addresses hold PEG
+	drained := Staker("drained", 0)
+	b.TxE(111, 111, "a pFCT-only address", bob, Xfer(Bo, FCT, fct, drained.Address))
+	withDrained := append([]chain.StakerKey{drained}, stakers...)
+	b.SPR(112, hprice(seed, 112), withDrained)
+	b.SPR(113, hprice(seed, 113), withDrained)
 	rateOPR(114)
 	b.TxE(114, 115, "carol's later, funded conversion", carol, Conv(C, USD, 20*fct, JPY))
 	rateOPR(115)
